@@ -37,16 +37,17 @@ func Run(k *report.Check) {
 	k.Rule = "one real Operator (event batch size 1 or 2), R sender threads (source runners) that each play a script through HandleEvent sequentially; scripts enumerated: 0-2 keyed events before each barrier (keys collide across senders), 0-1 after, optional pre-barrier watermark, one timer-setting event, one or two consecutive checkpoints (separate parts: three, thorough also four, with fixed scripts); every schedule of the sender threads, the operator's event loop and the (slow) handler within the delay bound. For every OperatorCheckpointComplete(N): the events applied so far are exactly the events every sender delivered before its barrier N, no timer fired that only post-barrier watermarks justify, the DKV checkpoint reported for N (opened afterwards with a fresh database) holds exactly that state, no deadlock. non-trivial = distinct (scripts, schedule cost) executions in which a sender had passed its barrier while another sender's pre-barrier event was still to be applied"
 	k.Assumptions = []string{"scheduling points at synchronisation operations (sequentially consistent)", "large memtable: the database's background work is C07/C08's subject"}
 	k.Budget(120, 1200)
-	k.Parts(k.Pick(3, 5))
+	k.Parts(k.Pick(4, 5))
 	bound := k.Pick(1, 2)
 	k.ExploreSched(fmt.Sprintf("align/all-scripts,senders=2,delays<=%d", bound), mc.Config{Bound: bound}, params{senders: 2, full: k.Thorough()}, body)
 	k.ExploreSched(fmt.Sprintf("align/focused-scripts,senders=2,delays<=%d", bound+1), mc.Config{Bound: bound + 1}, params{senders: 2, focused: true}, body)
 	// three and four checkpoints in a row on one deployment: the alignment bookkeeping is re-armed
 	// after every checkpoint, and which sender's barrier arrives first may change from one to the next
 	k.ExploreSched(fmt.Sprintf("align/three-checkpoints,senders=2,delays<=%d", bound), mc.Config{Bound: bound, Deadline: k.Within(0.5)}, params{senders: 2, focused: true, ckpts: 3}, body)
+	// three senders: a barrier that is neither the first nor the last of its checkpoint exists
+	k.ExploreSched(fmt.Sprintf("align/focused-scripts,senders=3,delays<=%d", bound+1), mc.Config{Bound: bound + 1}, params{senders: 3, focused: true}, body)
 	if k.Thorough() {
 		k.ExploreSched("align/four-checkpoints,senders=2,delays<=2", mc.Config{Bound: 2, Deadline: k.Within(0.4)}, params{senders: 2, focused: true, ckpts: 4}, body)
-		k.ExploreSched("align/focused-scripts,senders=3,delays<=2", mc.Config{Bound: 2}, params{senders: 3, focused: true}, body)
 	}
 }
 
